@@ -451,9 +451,9 @@ func c04queries(c *Ctx, cas c04case, x idx, stage string, queries [][2]int, nref
 
 func c04(c *Ctx, roundtripOnly bool) {
 	if roundtripOnly {
-		c.Rule = "index states: the C04 generator (sorted sequences of <=3 records over boundary-biased interval alphabets on references 0..3 incl. references without records, placed-unmapped and unplaced records) for BAI, tabix (3 header settings) and CSI v1/v2 x aux {nil, 5 bytes} on geometries (14,5),(12,4),(1,2),(3,3). For every state: write -> read -> write gives identical bytes, also when the reader's source delivers one byte per Read call; NumRefs, per-reference mapped/unmapped counts and chunk spans and the unplaced count are equal on both sides and equal the true counts of the records added; every C04 query answers identically on the re-read index. Non-trivial: states with >=2 records or a reference without records."
+		c.Rule = "index states: the C04 generator (sorted sequences of <=3 records over boundary-biased interval alphabets on references 0..3 incl. references without records, placed-unmapped and unplaced records) for BAI, tabix (3 header settings) and CSI v1/v2 x aux {nil, 5 bytes} on geometries (14,5),(12,4),(1,2),(3,3). For every state (also built with a query and a write between the Adds): write -> read -> write gives identical bytes, also when the reader's source delivers one byte per Read call; NumRefs, per-reference mapped/unmapped counts and chunk spans and the unplaced count are equal on both sides and equal the true counts of the records added; every C04 query answers identically on the re-read index. Non-trivial: states with >=2 records or a reference without records."
 	} else {
-		c.Rule = "BAI, tabix and CSI (geometries (14,5),(12,4),(1,2),(3,3); thorough adds (14,6) on the reduced alphabet): every sorted sequence of 1-2 records over the full interval alphabet (starts at 0,1,T-1,T,T+1,2T, every bin-level boundary +-1, limit-2, limit-1; lengths 1,2,T-1,T,T+1,8T,largest level+1) and every sequence of 3 over a reduced alphabet, on reference patterns (0),(0,0),(0,1),(0,2: reference 1 empty),(0,0,0),(0,0,2),(0,1,1),(0,1,3), plus placed-unmapped and unplaced records; chunks are consecutive synthetic virtual offsets (same-block, block-end and next-block forms). For every state and every query interval ([p,p+1) and [p,p+T+1) for every alphabet position p, plus whole-range and tile-edge queries) on every reference: Add never fails or panics, and every record overlapping the query is covered by the union of the returned chunks (an error or empty answer implies no overlap); repeated after write->read and after MergeChunks with Identity, Adjacent, Squash, Compressor(0), Compressor(65536). Non-trivial: (state, query) pairs with at least one overlapping record."
+		c.Rule = "BAI, tabix and CSI (geometries (14,5),(12,4),(1,2),(3,3); thorough adds (14,6) on the reduced alphabet): every sorted sequence of 1-2 records over the full interval alphabet (starts at 0,1,T-1,T,T+1,2T, every bin-level boundary +-1, limit-2, limit-1; lengths 1,2,T-1,T,T+1,8T,largest level+1) and every sequence of 3 over a reduced alphabet, on reference patterns (0),(0,0),(0,1),(0,2: reference 1 empty),(0,0,0),(0,0,2),(0,1,1),(0,1,3), plus placed-unmapped and unplaced records; chunks are consecutive synthetic virtual offsets (same-block, block-end and next-block forms). For every state and every query interval ([p,p+1) and [p,p+T+1) for every alphabet position p, plus whole-range and tile-edge queries) on every reference: Add never fails or panics, and every record overlapping the query is covered by the union of the returned chunks (an error or empty answer implies no overlap); repeated on an index that was queried and written between the Adds, after write->read and after MergeChunks with Identity, Adjacent, Squash, Compressor(0), Compressor(65536). Non-trivial: (state, query) pairs with at least one overlapping record."
 	}
 	if c.Replay != nil {
 		var cas c04case
@@ -546,11 +546,38 @@ func c04run(c *Ctx, cas c04case, roundtripOnly bool, evals, nontriv *int64) {
 	if x == nil {
 		return
 	}
+	// the same records added to one index object that is queried and written between the Adds
+	// (a query or a write sorts the bins; later Adds must leave the index consistent again)
+	var xi idx
+	if len(cas.Recs) >= 2 {
+		guard(c, cas.Kind+":Add:interleaved", cas, func() {
+			z := newIdx(cas)
+			for k, r := range cas.Recs {
+				if err := z.add(r, chunkOf(k)); err != nil {
+					c.Violate(cas.Kind+":Add:error:interleaved", fmt.Sprintf("%s index: Add of record %d of %+v failed after a query and a write: %v", cas.Kind, k, cas.Recs, err), cas)
+					return
+				}
+				if k < len(cas.Recs)-1 {
+					z.chunks(0, 0, 1<<uint(cas.MinShift))
+					z.write()
+				}
+			}
+			xi = z
+		})
+	}
 	if roundtripOnly {
 		c15check(c, cas, x, queries, nrefs, evals, nontriv)
+		if xi != nil {
+			ic := cas
+			ic.Stage = "interleaved"
+			c15check(c, ic, xi, queries, nrefs, evals, nontriv)
+		}
 		return
 	}
 	c04queries(c, cas, x, "built", queries, nrefs, evals, nontriv)
+	if xi != nil {
+		c04queries(c, cas, xi, "interleaved", queries, nrefs, evals, nontriv)
+	}
 	// write -> read
 	var y idx
 	guard(c, cas.Kind+":roundtrip", cas, func() {
